@@ -436,7 +436,14 @@ func init() {
 						extra = " r=1"
 					}
 					q := r.Intn(2)
-					emit(fmt.Sprintf("bk.send %d PUBLISH q=%d id=%d t=%s p=%s%s", c, q, 1+r.Intn(3), hs(pick(r, topics)), hs(fmt.Sprintf("m%d", done)), extra))
+					topic := pick(r, topics)
+					if ver[id] == 5 && r.Intn(3) == 0 { // inbound alias: bound by a (possibly refused) publish, then used with an empty topic
+						extra += fmt.Sprintf(" ta=%d", 1+r.Intn(2))
+						if r.Intn(2) == 0 {
+							topic = ""
+						}
+					}
+					emit(fmt.Sprintf("bk.send %d PUBLISH q=%d id=%d t=%s p=%s%s", c, q, 1+r.Intn(3), hs(topic), hs(fmt.Sprintf("m%d", done)), extra))
 				case k < 8:
 					emit(fmt.Sprintf("bk.ipub %s %s %d %d", hs(pick(r, topics)), hs(fmt.Sprintf("i%d", done)), r.Intn(2), r.Intn(2)))
 				case k < 14:
